@@ -516,14 +516,19 @@ def partial_trace(rho, keep, dims, optimize=False):
     :rtype: numpy.ndarray
     """
 
-    keep = np.asarray(keep)
+    keep = np.asarray(keep, dtype=int)
     dims = np.asarray(dims)
     ndim = dims.size
-    nkeep = np.prod(dims[keep])
+    nkeep = int(np.prod(dims[keep]))
 
-    # string for initial array dimensions of form "abc...ABC...", where upper/lowercase = local Hilbert space
+    # string for initial array dimensions of form "abc...ABC...", where upper/lowercase = local Hilbert space;
+    # a subsystem that is traced out uses the same letter for its row and column index, so that einsum sums
+    # over its diagonal only
     ssleft = "".join([string.ascii_lowercase[i] for i in range(ndim)]) + "".join(
-        [string.ascii_uppercase[i] for i in range(ndim)]
+        [
+            string.ascii_uppercase[i] if i in keep else string.ascii_lowercase[i]
+            for i in range(ndim)
+        ]
     )
 
     # string for final array dimensions is the same as initial, with upper/lowercase of dimensions to trace over omitted
